@@ -213,6 +213,8 @@ def main(argv=None):
     p = sub.add_parser("selftest")
     p.add_argument("--seeds", type=int, default=400)
     p.add_argument("--mutants", action="store_true")
+    p.add_argument("--scale", type=float, default=0.25)
+    p.add_argument("--only", help="comma-separated mutant ids")
     args = ap.parse_args(argv)
     if args.cmd in ("C06", "C07"):
         return cmd_check(args.cmd, args)
